@@ -16,9 +16,11 @@ Model of the method-configuration logic behind `python -m picked_group_fdr --met
   `remaps_peptides_to_proteins`, `methods.requires_peptide_to_protein_map`;
 * `picked_group_fdr.run_picked_group_fdr / run_method / get_protein_group_results`: all methods
   are parsed first, then the peptide→protein map is demanded if any method needs it, then the
-  methods run in order: a method without its input file is skipped with a warning, native
-  MaxQuant grouping without `--mq_protein_groups` and the rescue step for a score that cannot
-  rescue are refused (the latter after the first pass), otherwise a table is written;
+  methods run in order: a method without its input file is skipped with a warning; the score
+  `MQ_protein` is refused by the MaxQuant evidence parser (no score column) and, for the other
+  four input types, when the first pass asks for its proteinGroups file; native MaxQuant
+  grouping without `--mq_protein_groups` and the rescue step for a score that cannot rescue
+  are refused (the latter after the first pass); otherwise a table is written;
 * `writers.base._get_output_filename`: the file name per method when several methods run.
 
 Executable, Mathlib-free.  Strings are tested through `PgFdr.containsSub` on `List Char`.
@@ -66,8 +68,17 @@ inductive Err where
   | missingFasta
   /-- warning "No evidence input file found, skipping method" (the method writes nothing) -/
   | missingInput
-  /-- `get_score_column()` is `None` (MQ_protein): no evidence column to read -/
+  /-- `ValueError("Column None is missing. Please check your input file.")` of the MaxQuant evidence parser
+      (`parsers/maxquant.py`: `get_header_col(score_type.get_score_column(), required=True)`), the only parser
+      that demands the column `get_score_column()` names; it is `None` for the score `MQ_protein` -/
   | noScoreColumn
+  /-- the score `MQ_protein` on an input whose parser does not demand the score column (Percolator, FragPipe, Sage,
+      DIA-NN): `collect_peptide_scores_per_protein` hands over to `MQProteinScore.get_protein_scores_from_file`,
+      and `parse_method_toml` never gives that object a proteinGroups file.  REPAIRED behaviour
+      (`fixes/C18-mq-protein-score-without-file`): the tool's own `ValueError("The MQ_protein score type reads
+      its protein scores from a MaxQuant proteinGroups.txt file, but no such file was given …")`; the shipped
+      code dies in `open('')` with `FileNotFoundError: [Errno 2] No such file or directory: ''` -/
+  | noProteinScoreFile
   /-- `ValueError("Missing MQ protein groups file input --mq_protein_groups")` -/
   | missingMqProteinGroups
   /-- `NotImplementedError("Cannot do rescue step for other score types than bestPEP")` -/
@@ -83,6 +94,7 @@ def Err.tag : Err → String
   | .missingFasta => "missing_fasta"
   | .missingInput => "missing_input"
   | .noScoreColumn => "no_score_column"
+  | .noProteinScoreFile => "no_protein_score_file"
   | .missingMqProteinGroups => "missing_mq_protein_groups"
   | .rescueUnsupported => "rescue_unsupported"
 
@@ -243,12 +255,25 @@ def Supplied.has (s : Supplied) : Input → Bool
   | .sage => s.sage
   | .diann => s.diann
 
-/-- `run_method` + `get_protein_group_results` for one parsed method on valid input files:
-    `ok ()` = a protein-group table is produced -/
+/-- `run_method` + `get_protein_group_results` for one parsed method on valid input files, in the code's order:
+    `ok ()` = a protein-group table is produced.
+
+    1. `run_method`: no evidence file of the method's type → warning, the method is skipped;
+    2. `evidence.parse_evidence_files`: ONLY the MaxQuant parser demands the column named by
+       `get_score_column()` (`required=True`); the Percolator / FragPipe / Sage parsers merely compare the name with
+       `"posterior_error_prob"` / `"pep"` and read their search-engine score column otherwise, the DIA-NN parser
+       does not look at it.  So `MQ_protein` (column `None`) is refused here for MaxQuant input and parses for the
+       other four; `Andromeda` (column `"score"`) parses for all five;
+    3. `grouping_strategy.group_proteins`: MaxQuant's own grouping without `--mq_protein_groups` is refused;
+    4. first pass of the rescue loop, `collect_peptide_scores_per_protein`: `MQ_protein` asks its score object for
+       the proteinGroups file, which `parse_method_toml` never supplies (repaired: the tool's own error; shipped
+       code: `FileNotFoundError ''`, the C18 finding) — also when `--mq_protein_groups` was given;
+    5. second pass (groupings with a rescue step): refused unless the score can rescue. -/
 def runMethod (s : Supplied) (c : Cfg) : Except Err Unit :=
   if !s.has c.input then .error .missingInput
-  else if c.scoreColumn.isNone then .error .noScoreColumn
+  else if c.input == .mq && c.scoreColumn.isNone then .error .noScoreColumn
   else if c.grouping.needsMqGroups && !s.mqGroups then .error .missingMqProteinGroups
+  else if c.scoreColumn.isNone then .error .noProteinScoreFile
   else if c.grouping.rescues && !c.score.canRescue then .error .rescueUnsupported
   else .ok ()
 
